@@ -23,7 +23,8 @@ MANIFEST = {
             "do_request's classification and of every store call; discard bookkeeping (no phantom); quote is injective/decodable and "
             "URL-safe. Tie: differential run (outcome, request log, full client+server state after every call) against the SDK "
             "talking to a Python transcription of the model's server (itself compared with the Lean server line by line), through a "
-            "replaced pool manager and through real sockets on 127.0.0.1.",
+            "replaced pool manager and through real sockets on 127.0.0.1."
+            " Every urllib.parse.quote call that builds a document name is regenerated from the source and proved to pass safe='' - the quoting the injectivity theorems are about (c16_document_name_quotes_everything).",
     "note": "proof relative to the modelled MVCC rules (no real CouchDB in the sandbox); payload = one Submodel attribute; urllib3/json "
             "trusted; op-level (not request-level) interleaving; documents written by the external writer are SDK-shaped",
     "technique": "Lean 4 proof: invariant by induction over interleaved histories + per-call refinement to an abstract map + decision-table "
